@@ -141,6 +141,7 @@ class SpecOpts(object):
         # known finding size-on-element-reference: a SIZE constraint applied to a type reference is
         # honoured only when the reference is the type of a SEQUENCE/SET/CHOICE member
         self.size_on_elem_ref = False
+        self.base_opts = {}          # overrides for gen_asn1.Opts
         self.__dict__.update(kw)
 
 
@@ -149,6 +150,7 @@ def gen_spec(rng, so=None):
     tags = rng.choice(so.tag_modes)
     o = Opts(n_types=so.n_types, max_depth=so.max_depth, tag_modes=[tags], recursion=so.recursion,
              str_kinds=list(KM_KINDS) + ['UTF8String'], int_max_bits=40, max_members=3)
+    o.__dict__.update(so.base_opts)
     g = Gen(rng, o)
     mod = g.gen_module('M')
     types = [(n, t) for n, t in mod['types']]
